@@ -64,6 +64,8 @@ def run(tier):
     batches = []
     for i in range(nhist):
         case = conc_case(rng, rng.choice([4, 6, 8]), rng.choice([150, 300]) if not thorough else rng.choice([300, 600]))
+        if i % 3 == 2:
+            case[0] = dict(case[0], **{"async": True})     # every third history on the asynchronous log
         batches.append(("h%d" % i, case, {"GOMAXPROCS": str([1, 2, 4, 16][i % 4])}))
 
     # a memstore of tens of MiB: its flush takes long enough for readers to run between every two steps of the flusher (table written, log file
